@@ -148,6 +148,7 @@ class NightExec:
         rec.extra["op"] = op
         rec.extra["mon"] = monitors.take()
         rec.extra["fits"] = list(seams.SOLVER.calls) if seams.SOLVER.installed else []
+        rec.extra["n_solves"] = seams.SOLVER.n_solves if seams.SOLVER.installed else 0
         self.stats.polls += 1
         if rec.ok:
             self.stats.polls_ok += 1
@@ -427,7 +428,9 @@ def write_replay(prop, spec, vdict, tag):
     spec["expect"] = dict(clause=vdict["clause"], flags=vdict.get("flags") or {}, message=vdict["message"])
     path = os.path.join(REPLAY_DIR, f"{prop}-{tag}.json")
     with open(path, "w") as f:
-        json.dump(spec, f, indent=None, sort_keys=True, default=_json_default)
+        # NOT sort_keys: the order of dict entries is part of the input (e.g. the order of a fixed-effects dict decides the
+        # order of the design-matrix columns)
+        json.dump(spec, f, indent=None, default=_json_default)
     return path
 
 
